@@ -80,18 +80,18 @@ class G:
 GENERICS = [
     G("none", ""),
     G("T", "T", T="T"),
-    G("T:bound", "T: Clone", T="T"),
-    G("T:where", "T", where="T: Clone", T="T"),
+    G("T:bound", "T: ::core::clone::Clone", T="T"),
+    G("T:where", "T", where="T: ::core::clone::Clone", T="T"),
     G("T=default", "T = Tag", T="T"),
-    G("T,U", "T, U: Clone", where="T: Clone", T="T", U="U"),
+    G("T,U", "T, U: ::core::clone::Clone", where="T: ::core::clone::Clone", T="T", U="U"),
     G("'a", "'a", lt="'a"),
     G("'a,T", "'a, T: 'a", T="T", lt="'a"),
     G("constN", "const N: usize", N="N"),
     G("constN=default", "const N: usize = 2", N="N"),
     G("constN,T", "const N: usize, T", T="T", N="N"),
     G("T,constN", "T, const N: usize", T="T", N="N"),
-    G("T,constN,U", "T: Clone, const N: usize, U", T="T", U="U", N="N"),
-    G("'a,T,constN=default", "'a, T: Clone, const N: usize = 3", where="T: 'a", T="T", lt="'a", N="N"),
+    G("T,constN,U", "T: ::core::clone::Clone, const N: usize, U", T="T", U="U", N="N"),
+    G("'a,T,constN=default", "'a, T: ::core::clone::Clone, const N: usize = 3", where="T: 'a", T="T", lt="'a", N="N"),
 ]
 GEN_BY_KEY = {g.key: g for g in GENERICS}
 
